@@ -76,6 +76,9 @@ def streams(tier, rng, P, only=None, cases=None):
         for j, src in enumerate(mml.sample_sources()):
             cs.append(dict(req="run " + hx(src), src=src, show=src[:200], key="sample%d" % j))
         # notes whose gate comes out negative (a negative rate, a negative length, a Random gate): the note-off still follows its note-on
+        # tempi below 4 beats a minute (more microseconds a beat than three bytes hold): the tempo event still has a payload of three bytes
+        for j, src in enumerate(["TempoChange(3) c", "TempoChange(1) c d", "TempoChange(6,2,!1) l4 cdef", "TempoChange(2,!1) c", "TempoChange(3,1,!4) c d e", "TempoChange(0) c", "TempoChange(-5) c"]):
+            cs.append(dict(req="run " + hx(src), src=src, show=src, key="slow%d" % j))
         for j, src in enumerate(["c4,-10 d", "l%-20 c d", "q100 q.Random=250 c d e f g a b", "c%-5,50 d", "'ce'4,-20 g", "n60,4,-30 n62", "l4 c,-1 c,-100 c,-1000"]):
             cs.append(dict(req="run " + hx(src), src=src, show=src, key="neg%d" % j))
         return cs
